@@ -30,7 +30,7 @@ def _leaf_menu(lv):
     return lv[: LEAF_MENU // 2] + lv[-LEAF_MENU // 2:]
 
 
-def run_script(task, script, expect=None, changed=0, stats=None, seen=None):
+def run_script(task, script, expect=None, changed=-1, stats=None, seen=None):
     """One execution.  Returns (points, violation_dict_or_None)."""
     which = task["oracles"]  # subset of {"C02","C03"}
     sm = seam()
